@@ -1,0 +1,9 @@
+//go:build verif
+
+package state
+
+// Verification hooks (build tag verif): expose private constants unchanged.
+
+const VerifNonwriteableFlagThreshold = nonwriteable_flag_threshold
+
+func VerifToByteSize(bitSize uint32) uint8 { return toByteSize(bitSize) }
